@@ -140,6 +140,8 @@ type BuildOpts struct {
 	// Pad, if set, may return an element to put in front of the element that carries the path in a repeated
 	// message field (nil = no padding).
 	Pad func(f protoreflect.FieldDescriptor) protoreflect.Message
+	// PadAfter is Pad for an element behind the one that carries the path.
+	PadAfter func(f protoreflect.FieldDescriptor) protoreflect.Message
 }
 
 func newMessage(md protoreflect.MessageDescriptor) protoreflect.Message {
@@ -219,6 +221,11 @@ func buildInto(m protoreflect.Message, path Path, o BuildOpts) {
 		child := newMessage(f.Message())
 		buildInto(child, path[1:], o)
 		l.Append(protoreflect.ValueOfMessage(child))
+		if o.PadAfter != nil {
+			if pad := o.PadAfter(f); pad != nil {
+				l.Append(protoreflect.ValueOfMessage(pad))
+			}
+		}
 	default:
 		child := m.Mutable(f).Message()
 		buildInto(child, path[1:], o)
